@@ -641,6 +641,42 @@ func c17Worker(w *W) {
 			}(g)
 		}
 		wg.Wait()
+		// hot phase: a handful of very short expressions, so that calls overlap thousands of times per millisecond (whatever
+		// one call leaves behind for the next - a memo of the last input, a pooled result - is hit by a different input at once)
+		hot := []wf{
+			{"A{a=1}", map[string]string{"type": "A", "a": "1"}}, {"B{b=2}", map[string]string{"type": "B", "b": "2"}},
+			{"C{c=x,d=\"y\"}", map[string]string{"type": "C", "c": "x", "d": "y"}}, {"D{e=E{f=1}}", map[string]string{"type": "D", "e.type": "E", "e.f": "1"}},
+			{"A{a=2}", map[string]string{"type": "A", "a": "2"}}, {"A{b=1}", map[string]string{"type": "A", "b": "1"}},
+			{"Z{}", map[string]string{"type": "Z"}}, {"A{a=1,}", map[string]string{"type": "A", "a": "1"}},
+		}
+		hotN := 12 * n
+		if w.Spec.Flavour == "race" {
+			hotN = 4 * n
+		}
+		for g := 0; g < G && nbad.Load() == 0; g++ {
+			wg.Add(1)
+			go func(g int) {
+				defer wg.Done()
+				for rep := 0; rep < hotN && nbad.Load() == 0; rep++ {
+					x := hot[(rep*7+g*3)%len(hot)]
+					m, err := expr.Parse(x.text)
+					same := err == nil && len(m) == len(x.ref)
+					if same {
+						for k, v := range x.ref {
+							if m[k] != v {
+								same = false
+							}
+						}
+					}
+					if !same && nbad.Add(1) == 1 {
+						w.Violate("C17:map-mismatch:concurrent", fmt.Sprintf("%d goroutines parsing 8 short expressions at once: %q gave %v (err=%v), expected %v", G, x.text, m, err, x.ref),
+							map[string]any{"b64": base64.StdEncoding.EncodeToString([]byte(x.text)), "mode": "wellformed"})
+					}
+				}
+			}(g)
+		}
+		wg.Wait()
+		w.Count("concurrent_parses_of_short_expressions", int64(hotN*G))
 		w.Eval(int64(3 * len(wfs) * G))
 		w.Count("concurrent_parses", int64(3*len(wfs)*G))
 		if nbad.Load() == 0 {
